@@ -81,7 +81,10 @@ impl CrystalSetup {
           PolarizationType::Extraordinary => -n1,
         }
       }
-      _ => return RIndex::new(0.), // imaginary index
+      // The discriminant b² - 4c is never negative for a unit direction, so "no
+      // real root" can only be rounding noise next to an optic axis, where the two
+      // solutions coincide: use the double root -b/2.
+      _ => 0.5 * b,
     };
 
     if invxsq < 0. {
